@@ -137,3 +137,14 @@ Theorem negative_replaced_at_first_refresh : forall need_merge ttl s now outs pi
              eff_time r' = lmax (wreps pid outs).
 Proof. exact negative_replaced_at_first_refresh_l. Qed.
 Print Assumptions negative_replaced_at_first_refresh.
+
+(* Content level.  Every record readers can see for a provider after any history is one of
+   the records a source reported FOR THAT PROVIDER in that history (in a Refresh answer met
+   before a cancellation, or found by a lookup of that provider): the cache hands out
+   records exactly as reported, it never fabricates or combines them.  With
+   refresh_ok_freshest: after a completed refresh it is a reported record of the newest
+   time. *)
+Theorem returned_record_is_a_reported_record : forall need_merge ttl ops pid r,
+  Forall wf_op ops -> visible (run true need_merge ttl ops init) pid = Some r -> reported_in ops pid r.
+Proof. exact visible_record_was_reported. Qed.
+Print Assumptions returned_record_is_a_reported_record.
